@@ -57,7 +57,10 @@ def observe(pd, req, fresh_model=True):
         kw = dict(size=req["size"], row0=req["row0"], col0=req["col0"])
     q = req["q"]
     ok = True
-    if q == "k0":
+    if q == "k0" and req.get("num"):
+        n = (1 if pd["model"] == "plate_w" else 3) * pd["m"] * pd["n"]
+        M = p.calc_k0(silent=True, c=np.zeros(n), nx=req["num"][0], ny=req["num"][1], NLgeom=False, **kw)
+    elif q == "k0":
         M = p.calc_k0(silent=True, **kw)
     elif q == "kG0":
         p.Nxx, p.Nyy, p.Nxy = (float(fr(x)) for x in req["N"])
@@ -157,7 +160,7 @@ def observe_load(p, pd, req, kw):
 
 def jreq(r):
     out = dict(q=r["q"], size=r.get("size", 0), row0=r.get("row0", 0), col0=r.get("col0", 0))
-    for k in ("N", "flow", "beta", "gamma", "aeromu", "c", "pts", "NL", "forces", "forcesInc", "inc", "cores"):
+    for k in ("N", "flow", "beta", "gamma", "aeromu", "c", "pts", "NL", "forces", "forcesInc", "inc", "cores", "num"):
         if k in r:
             out[k] = r[k]
     return out
